@@ -328,7 +328,7 @@ def gen_ops(rng: random.Random, nops: int) -> list[dict]:
     """Ops are total: indices are taken modulo what exists at execution time."""
     ops = []
     weights = {'worker': 5, 'future': 2, 'fork': 2, 'connect': 14, 'train': 5, 'segment': 3, 'copy': 1.5,
-               'compose': 1.5, 'keep': 2, 'release': 2, 'collect': 1.5, 'drop': 1.5 if LIFETIMES else 0}
+               'compose': 1.5, 'extend': 2.5, 'keep': 2, 'release': 2, 'collect': 1.5, 'drop': 1.5 if LIFETIMES else 0}
     kinds, wts = zip(*weights.items())
     if rng.random() < 0.08:  # swarm: a cycle that does not contain the traced head, each of its nodes also fed by the head
         ops += [{'op': 'worker', 'stateful': False, 'szin': 1, 'szout': 2},
@@ -380,6 +380,10 @@ def gen_ops(rng: random.Random, nops: int) -> list[dict]:
             op.update(head=rng.randrange(64), tail=rng.choice([None, None, rng.randrange(64)]))
         elif kind in ('copy', 'compose'):
             op.update(seg=rng.randrange(64), mode=rng.choice(['apply', 'apply', 'train']))
+        elif kind == 'extend':
+            op.update(left=rng.randrange(64), right=rng.randrange(64), mode=rng.choice(['apply', 'train', 'label']),
+                      route=rng.choice(['segment.extend', 'segment.extend', 'segment.subscribe', 'publisher.subscribe',
+                                        'trunk.extend', 'trunk.extend', 'node.extend']))
         elif kind == 'release':
             op.update(slot=rng.randrange(8))
         ops.append(op)
@@ -786,6 +790,56 @@ def run_case(ops: list[dict], known_sites: typing.Sequence[str] = ()) -> dict:
                      unknown=status == 'unknown' or visited_future is None or model.has_cycle_from(head),
                      only_cycles=model.has_cycle_from(head))
                 stats['op:compose'] += 1
+            elif kind == 'extend':
+                # the segment / trunk level routes to a connection: left's tail publishes to right's head, and (all
+                # routes but the bare subscriptions) the joint segment is traced anew
+                if not world.segments or world.refs or any(n is None for n in world.nodes):
+                    continue
+                lseg, lhead, ltail = world.segments[op['left'] % len(world.segments)]
+                rseg, rhead, rtail = world.segments[op['right'] % len(world.segments)]
+                if ltail is None or rtail is None or not model.nodes[ltail]['szout'] or not model.nodes[rhead]['szin']:
+                    continue
+                if model.future_cycle(ltail, rhead):
+                    continue
+                route = op['route']
+                if route == 'node.extend' and rhead != rtail:
+                    route = 'segment.extend'
+                reason = model.check_edge(ltail, 0, rhead, ('A', 0))
+                where = f'step {step}: Segment(node{lhead}..node{ltail}) extended by Segment(node{rhead}..node{rtail}) via {route}' + (
+                    ' [placeholder]' if model.is_future(ltail) or model.is_future(rhead) else '')
+                snapshot = world.observe()
+                retraced = []
+
+                def connect_and_trace(route=route, lseg=lseg, rseg=rseg, rhead=rhead, reason=reason):
+                    try:
+                        if route == 'segment.extend':
+                            return lseg.extend(rseg)
+                        if route == 'node.extend':
+                            return lseg.extend(world.nodes[rhead])
+                        if route == 'trunk.extend':
+                            return getattr(flow.Trunk(**{op['mode']: lseg}).extend(**{op['mode']: rseg}), op['mode'])
+                        if route == 'segment.subscribe':
+                            rseg.subscribe(lseg)
+                        else:
+                            rseg.subscribe(lseg.publisher)
+                        return None
+                    except flow.TopologyError:
+                        if route.endswith('subscribe') or reason is not None or world.observe() == snapshot:
+                            raise  # refused as a whole: judged as the refusal of the connection
+                        retraced.append(True)  # connected; tracing the joint segment was refused (cycle, shape, ...)
+                        return None
+
+                joint = call(connect_and_trace, where, reason, step,
+                             mutate=lambda: model.add_edge(ltail, 0, rhead, ('A', 0)))
+                stats['op:extend'] += 1
+                stats['extend:connection-refused'] += reason is not None
+                stats['extend:joint-trace-refused'] += bool(retraced)
+                if joint is not None:
+                    if joint._head is not world.nodes[lhead]:  # pylint: disable=protected-access
+                        raise CaseViolation('wrong-head', f'{where}: the joint segment starts at node'
+                                                          f'{world.index(joint._head)}', step)  # pylint: disable=protected-access
+                    world.segments.append((joint, lhead, world.index(joint._tail)))  # pylint: disable=protected-access
+                    stats['extend:joint-segment'] += 1
             elif kind == 'keep':
                 world.keep_next = True
             elif kind == 'release':
@@ -1049,7 +1103,10 @@ def main(argv: list[str]) -> int:
         'ops_executed': {k[3:]: v for k, v in stats.items() if k.startswith('op:')},
         'reach_probes': {'nodes_that_died_at_a_collection': stats.get('node-deaths', 0),
                          'refused_calls_retried': stats.get('retries', 0),
-                         'copies_checked_for_structure': stats.get('copy-structure-checked', 0)},
+                         'copies_checked_for_structure': stats.get('copy-structure-checked', 0),
+                         'extend_connection_refused': stats.get('extend:connection-refused', 0),
+                         'extend_joint_trace_refused': stats.get('extend:joint-trace-refused', 0),
+                         'extend_joint_segment_made': stats.get('extend:joint-segment', 0)},
         'verdicts': {k[8:]: v for k, v in stats.items() if k.startswith('verdict:')},
         'violating_cases_by_signature': {k: len(v) for k, v in groups.items()},
         'real_components': ['flow._graph.port/atomic/span', 'flow._suite.clean/assembly (Trunk, Composition, Validator)'],
